@@ -115,7 +115,180 @@ func (s *skipImpl[K]) open(kind string, a, b []byte) (func() (string, bool, erro
 }
 
 // newSkipImpl: a fresh map under the named comparator (scale != 1: a consistent byte comparator with other magnitudes)
-func newSkipImpl(cmp string, scale int) skipOps {
+func newSkipImpl(cmp string, scale int) skipOps { return newSkipImplOrd(cmp, scale, bytesOrder) }
+
+// byteOrder: a total, consistent order on byte strings which the Lean driver knows by name (`cmp=<name>`); cmp's sign counts
+type byteOrder struct {
+	name string
+	cmp  func(a, b []byte) int
+}
+
+func mapBytes(b []byte, f func(byte) byte) []byte {
+	o := make([]byte, len(b))
+	for i, x := range b {
+		o[i] = f(x)
+	}
+	return o
+}
+
+func lowerASCII(x byte) byte {
+	if x >= 'A' && x <= 'Z' {
+		return x + 0x20
+	}
+	return x
+}
+
+func reversedBytes(b []byte) []byte {
+	o := make([]byte, len(b))
+	for i, x := range b {
+		o[len(b)-1-i] = x
+	}
+	return o
+}
+
+var bytesOrder = &byteOrder{"bytes", bytes.Compare}
+
+// orders on byte strings other than bytes.Compare (all total and consistent; "fold" identifies keys that differ in case only)
+var otherOrders = []*byteOrder{
+	{"rev", func(a, b []byte) int { return bytes.Compare(b, a) }}, // descending
+	{"shortlex", func(a, b []byte) int {
+		if len(a) != len(b) {
+			return len(a) - len(b)
+		}
+		return bytes.Compare(a, b)
+	}},
+	{"revshortlex", func(a, b []byte) int { // longer keys first
+		if len(a) != len(b) {
+			return len(b) - len(a)
+		}
+		return bytes.Compare(a, b)
+	}},
+	{"last", func(a, b []byte) int { return bytes.Compare(reversedBytes(a), reversedBytes(b)) }}, // last byte first
+	{"signed", func(a, b []byte) int { // bytes as int8 (0x80..0xff sort before 0x00..0x7f)
+		f := func(x byte) byte { return x ^ 0x80 }
+		return bytes.Compare(mapBytes(a, f), mapBytes(b, f))
+	}},
+	{"foldtie", func(a, b []byte) int { // case-insensitive, ties broken by the bytes
+		if c := bytes.Compare(mapBytes(a, lowerASCII), mapBytes(b, lowerASCII)); c != 0 {
+			return c
+		}
+		return bytes.Compare(a, b)
+	}},
+	{"fold", func(a, b []byte) int { return bytes.Compare(mapBytes(a, lowerASCII), mapBytes(b, lowerASCII)) }}, // case-insensitive
+}
+
+// alphabet of the keys compared under these orders: both cases of two letters and both sides of the int8 sign
+var orderAlphabet = []byte{0, 1, 'A', 'B', 'a', 'b', 0x7f, 0x80, 0xff}
+
+// ordCmp: the comparator of a byteOrder for any key type with a byte form. mag > 0: results are -mag/0/+mag;
+// mag == 0: the magnitude depends on the two keys (as a difference-style comparator's does)
+type ordCmp[K any] struct {
+	ord  *byteOrder
+	mag  int
+	back func(K) []byte
+}
+
+func (c ordCmp[K]) Compare(a, b K) int {
+	x, y := c.back(a), c.back(b)
+	s := c.ord.cmp(x, y)
+	if s == 0 {
+		return 0
+	}
+	m := c.mag
+	if m == 0 {
+		m = 1
+		for _, v := range x {
+			m += int(v)
+		}
+		for _, v := range y {
+			m += int(v)
+		}
+	}
+	if s < 0 {
+		return -m
+	}
+	return m
+}
+
+// skipRef: the reference map of the skip streams under a byteOrder (keys equal under the order are one key; the first
+// inserted spelling and value stay, as Insert refuses duplicates)
+type skipRef struct {
+	ord  *byteOrder
+	keys [][]byte // sorted by ord
+	vals []string
+}
+
+func (m *skipRef) find(k []byte) int {
+	for i, x := range m.keys {
+		if m.ord.cmp(x, k) == 0 {
+			return i
+		}
+	}
+	return -1
+}
+
+func (m *skipRef) get(k []byte) (string, bool) {
+	if i := m.find(k); i >= 0 {
+		return m.vals[i], true
+	}
+	return "", false
+}
+
+// put inserts unless the key is there already (reported)
+func (m *skipRef) put(k []byte, v string) (dup bool) {
+	if m.find(k) >= 0 {
+		return true
+	}
+	i := 0
+	for i < len(m.keys) && m.ord.cmp(m.keys[i], k) < 0 {
+		i++
+	}
+	m.keys = append(m.keys, nil)
+	copy(m.keys[i+1:], m.keys[i:])
+	m.keys[i] = k
+	m.vals = append(m.vals, "")
+	copy(m.vals[i+1:], m.vals[i:])
+	m.vals[i] = v
+	return false
+}
+
+func (m *skipRef) list(pred func(k []byte) bool) string {
+	var parts []string
+	for i, k := range m.keys {
+		if pred(k) {
+			parts = append(parts, gb(nonNil(k))+"="+m.vals[i])
+		}
+	}
+	if len(parts) == 0 {
+		return "[]"
+	}
+	return strings.Join(parts, ";")
+}
+
+func (m *skipRef) size() int { return len(m.keys) }
+
+// the driver's option for an order ("" for bytes.Compare: the command as it always was)
+func (o *byteOrder) drvOpt() string {
+	if o == bytesOrder {
+		return ""
+	}
+	return "cmp=" + o.name + " "
+}
+
+// newSkipImplOrd: a fresh map of the key type `cmp` ordered by ord with result magnitudes `scale`
+func newSkipImplOrd(cmp string, scale int, ord *byteOrder) skipOps {
+	if ord != bytesOrder {
+		switch cmp {
+		case "int":
+			return &skipImpl[int64]{m: skiplist.NewSkipListMap[int64, string](ordCmp[int64]{ord, scale, intKey}), conv: decodeIntKey, back: intKey}
+		case "string":
+			back := func(s string) []byte { return []byte(s) }
+			return &skipImpl[string]{m: skiplist.NewSkipListMap[string, string](ordCmp[string]{ord, scale, back}),
+				conv: func(b []byte) string { return string(b) }, back: back}
+		}
+		id := func(b []byte) []byte { return b }
+		return &skipImpl[[]byte]{m: skiplist.NewSkipListMap[[]byte, string](ordCmp[[]byte]{ord, scale, id}), conv: id, back: id}
+	}
 	switch cmp {
 	case "int":
 		return &skipImpl[int64]{m: skiplist.NewSkipListMap[int64, string](skiplist.OrderedComparator[int64]{}), conv: decodeIntKey, back: intKey}
@@ -139,7 +312,10 @@ func runSkip(res *Result, drv *Driver, seed uint64, n int, tier string, only int
 		"Every case also runs an OP PROGRAM on a fresh map over a small key universe: Insert / Get / Contains (hits, misses, duplicate inserts; " +
 		"miss(k), Insert(others), Insert(k)) in any order, each lookup compared where it happens, the whole map compared after every 1-5 ops and at the end, " +
 		"and ITERATOR PROGRAMS (2-9 full / starting-at / between iterators alive at once, advanced in interleaved order, Next repeated after Done while " +
-		"others are created and drained); non-trivial program = at least 2 keys and one interleaved lookup, distinct = distinct program"
+		"others are created and drained); non-trivial program = at least 2 keys and one interleaved lookup, distinct = distinct program. " +
+		"Every case runs a third time under a comparator that defines ANOTHER ORDER than bytes.Compare (descending, shortlex, longer-first, last byte first, " +
+		"bytes as int8, case-insensitive with and without tie-break = coarser key equality; result magnitudes 1, k and key-dependent) for []byte, string and " +
+		"int keys: an insertion sequence with all probes / bound pairs and an op program with iterator programs, reference and model under the same order"
 	// case list: exhaustive permutations of small key sets come first
 	type skCase struct {
 		cmp  string
@@ -223,135 +399,176 @@ func runSkip(res *Result, drv *Driver, seed uint64, n int, tier string, only int
 			impl = &skipImpl[[]byte]{m: skiplist.NewSkipListMap[[]byte, string](bc),
 				conv: func(b []byte) []byte { return b }, back: func(b []byte) []byte { return b }}
 		}
-		// reference map
-		ref := map[string]string{}
-		var insTok, insOut []string
-		for j, k := range c.keys {
-			v := "v" + strconv.Itoa(j)
-			h := 1 + r.Intn(12)
-			if r.Chance(20) {
-				h = []int{1, 12}[r.Intn(2)]
-			}
-			insTok = append(insTok, fmt.Sprintf("%s:%s:%d", gb(nonNil(k)), v, h))
-			p := impl.insert(k, v)
-			_, dup := ref[string(k)]
-			if p {
-				insOut = append(insOut, "panic")
-				res.Stat("dup-insert")
-			} else {
-				insOut = append(insOut, "ok")
-				if !dup {
-					ref[string(k)] = v
-				}
-			}
-			res.Evaluations++
-			if p != dup {
-				res.Violate(idx, "C16", "skip:dup-handling", fmt.Sprintf("insert #%d of key %x: panicked=%v but duplicate=%v", j, k, p, dup), strings.Join(insTok, ","))
-			}
-		}
-		cs := c.cmp + " ins=" + strings.Join(insTok, ",")
-		if len(ref) >= 2 {
-			res.NoteNontrivial(cs)
-		}
-		res.Sample(cs)
-		// sorted reference
-		var sk [][]byte
-		for k := range ref {
-			sk = append(sk, []byte(k))
-		}
-		sort.Slice(sk, func(a, b int) bool { return bytes.Compare(sk[a], sk[b]) < 0 })
-		refList := func(pred func(k []byte) bool) string {
-			var parts []string
-			for _, k := range sk {
-				if pred(k) {
-					parts = append(parts, gb(nonNil(k))+"="+ref[string(k)])
-				}
-			}
-			if len(parts) == 0 {
-				return "[]"
-			}
-			return strings.Join(parts, ";")
-		}
-		// probes: every present key, neighbours, and random ones; all bounds pairs for small sets
-		var probeKeys [][]byte
-		probeKeys = append(probeKeys, sk...)
-		for i := 0; i < 4; i++ {
-			if c.cmp == "int" {
-				probeKeys = append(probeKeys, intKey(int64(r.Intn(80))-40))
-			} else {
-				probeKeys = append(probeKeys, r.Bytes(r.Intn(3)))
-			}
-		}
-		if c.cmp != "int" {
-			probeKeys = append(probeKeys, []byte{})
-		}
-		if len(probeKeys) > 14 {
-			probeKeys = probeKeys[:14]
-		}
-		var probes, implOut []string
-		add := func(p, got, want string) {
-			probes = append(probes, p)
-			implOut = append(implOut, got)
-			res.Evaluations++
-			if got != want {
-				res.Violate(idx, "C16", "skip:"+strings.SplitN(p, ":", 2)[0], fmt.Sprintf("%s: want %s got %s", p, want, got), cs)
-			}
-		}
-		add("size", strconv.Itoa(impl.size()), strconv.Itoa(len(ref)))
-		all, err := impl.iter("all", nil, nil)
-		if err != nil {
+		if err := runSkipStatic(res, drv, idx, r, c.cmp, c.keys, impl, bytesOrder, c.cmp, "skip:"); err != nil {
 			return err
 		}
-		add("all", all, refList(func([]byte) bool { return true }))
-		for _, k := range probeKeys {
-			ks := gb(nonNil(k))
-			v, ok := impl.get(k)
-			got, want := "notfound", "notfound"
-			if ok {
-				got = "ok:" + v
-			}
-			if rv, ok := ref[string(k)]; ok {
-				want = "ok:" + rv
-			}
-			add("get:"+ks, got, want)
-			_, present := ref[string(k)]
-			add("has:"+ks, strconv.FormatBool(impl.has(k)), strconv.FormatBool(present))
-			fr, err := impl.iter("from", k, nil)
-			if err != nil {
-				return err
-			}
-			kk := k
-			add("from:"+ks, fr, refList(func(x []byte) bool { return bytes.Compare(x, kk) >= 0 }))
-		}
-		for _, lo := range probeKeys {
-			for _, hi := range probeKeys {
-				if len(probeKeys) > 8 && !r.Chance(25) {
-					continue
-				}
-				bt, err := impl.iter("between", lo, hi)
-				if err != nil {
-					return err
-				}
-				want := "rejected"
-				if bytes.Compare(lo, hi) <= 0 {
-					l, h := lo, hi
-					want = refList(func(x []byte) bool { return bytes.Compare(x, l) >= 0 && bytes.Compare(x, h) <= 0 })
-				} else {
-					res.Stat("between:lower>upper")
-				}
-				add("between:"+gb(nonNil(lo))+":"+gb(nonNil(hi)), bt, want)
-			}
-		}
-		m, err := drv.Ask(fmt.Sprintf("skip.run ins=%s probes=%s", strings.Join(insTok, ","), strings.Join(probes, ",")))
-		if err != nil {
-			return err
-		}
-		res.Cmp(idx, "skip.run", m, "ins="+strings.Join(insOut, ",")+" "+strings.Join(implOut, " "), cs)
 		if err := runSkipProgram(res, drv, seed, idx, c.cmp, tier); err != nil {
+			return err
+		}
+		if err := runSkipOrders(res, drv, seed, idx, tier); err != nil {
 			return err
 		}
 	}
 	return nil
+}
+
+// first part of every "skip" case: the insertion sequence `keys` goes into impl (a map of key type cmpName ordered by ord),
+// then size, the full iteration, Get / Contains / starting-at of every probe key and the bound pairs are compared with the
+// reference map under ord and with the model
+func runSkipStatic(res *Result, drv *Driver, idx int, r *Rng, cmpName string, keys [][]byte, impl skipOps, ord *byteOrder, csPrefix, sigp string) error {
+	// reference map
+	ref := &skipRef{ord: ord}
+	var insTok, insOut []string
+	for j, k := range keys {
+		v := "v" + strconv.Itoa(j)
+		h := 1 + r.Intn(12)
+		if r.Chance(20) {
+			h = []int{1, 12}[r.Intn(2)]
+		}
+		insTok = append(insTok, fmt.Sprintf("%s:%s:%d", gb(nonNil(k)), v, h))
+		p := impl.insert(k, v)
+		_, dup := ref.get(k)
+		if i := ref.find(k); i >= 0 && !bytes.Equal(ref.keys[i], k) {
+			res.Stat("order:insert-of-equal-key-in-other-spelling")
+		}
+		if p {
+			insOut = append(insOut, "panic")
+			res.Stat("dup-insert")
+		} else {
+			insOut = append(insOut, "ok")
+			if !dup {
+				ref.put(k, v)
+			}
+		}
+		res.Evaluations++
+		if p != dup {
+			res.Violate(idx, "C16", sigp+"dup-handling", fmt.Sprintf("insert #%d of key %x: panicked=%v but duplicate=%v", j, k, p, dup), strings.Join(insTok, ","))
+		}
+	}
+	cs := csPrefix + " ins=" + strings.Join(insTok, ",")
+	if ref.size() >= 2 {
+		res.NoteNontrivial(cs)
+	}
+	res.Sample(cs)
+	// sorted reference
+	sk := append([][]byte{}, ref.keys...)
+	refList := ref.list
+	// probes: every present key, neighbours, and random ones; all bounds pairs for small sets
+	var probeKeys [][]byte
+	probeKeys = append(probeKeys, sk...)
+	for i := 0; i < 4; i++ {
+		if cmpName == "int" {
+			probeKeys = append(probeKeys, intKey(int64(r.Intn(80))-40))
+		} else {
+			probeKeys = append(probeKeys, r.Bytes(r.Intn(3)))
+		}
+	}
+	if cmpName != "int" {
+		probeKeys = append(probeKeys, []byte{})
+	}
+	if len(probeKeys) > 14 {
+		probeKeys = probeKeys[:14]
+	}
+	var probes, implOut []string
+	add := func(p, got, want string) {
+		probes = append(probes, p)
+		implOut = append(implOut, got)
+		res.Evaluations++
+		if got != want {
+			res.Violate(idx, "C16", sigp+strings.SplitN(p, ":", 2)[0], fmt.Sprintf("%s: want %s got %s", p, want, got), cs)
+		}
+	}
+	add("size", strconv.Itoa(impl.size()), strconv.Itoa(ref.size()))
+	all, err := impl.iter("all", nil, nil)
+	if err != nil {
+		return err
+	}
+	add("all", all, refList(func([]byte) bool { return true }))
+	for _, k := range probeKeys {
+		ks := gb(nonNil(k))
+		v, ok := impl.get(k)
+		got, want := "notfound", "notfound"
+		if ok {
+			got = "ok:" + v
+		}
+		if rv, ok := ref.get(k); ok {
+			want = "ok:" + rv
+		}
+		add("get:"+ks, got, want)
+		_, present := ref.get(k)
+		add("has:"+ks, strconv.FormatBool(impl.has(k)), strconv.FormatBool(present))
+		fr, err := impl.iter("from", k, nil)
+		if err != nil {
+			return err
+		}
+		kk := k
+		add("from:"+ks, fr, refList(func(x []byte) bool { return ord.cmp(x, kk) >= 0 }))
+	}
+	for _, lo := range probeKeys {
+		for _, hi := range probeKeys {
+			if len(probeKeys) > 8 && !r.Chance(25) {
+				continue
+			}
+			bt, err := impl.iter("between", lo, hi)
+			if err != nil {
+				return err
+			}
+			want := "rejected"
+			if ord.cmp(lo, hi) <= 0 {
+				l, h := lo, hi
+				want = refList(func(x []byte) bool { return ord.cmp(x, l) >= 0 && ord.cmp(x, h) <= 0 })
+			} else {
+				res.Stat("between:lower>upper")
+			}
+			add("between:"+gb(nonNil(lo))+":"+gb(nonNil(hi)), bt, want)
+		}
+	}
+	m, err := drv.Ask(fmt.Sprintf("skip.run %sins=%s probes=%s", ord.drvOpt(), strings.Join(insTok, ","), strings.Join(probes, ",")))
+	if err != nil {
+		return err
+	}
+	res.Cmp(idx, "skip.run", m, "ins="+strings.Join(insOut, ",")+" "+strings.Join(implOut, " "), cs)
+	return nil
+}
+
+// ---------------------------------------------------------------------------------------------
+// third part of every "skip" case: the map under a comparator whose ORDER is not that of bytes.Compare (the property
+// quantifies over any consistent comparator). An insertion sequence with all probes and bound pairs, then an op program
+// with iterator programs; the reference map and the model (driver option cmp=<name>) use the same order. All choices
+// come from generator states of their own, the first two parts of the case are what they were.
+func runSkipOrders(res *Result, drv *Driver, seed uint64, idx int, tier string) error {
+	r := NewRng(seed^0x07de7ed0c0ffee, uint64(idx))
+	ord := otherOrders[r.Intn(len(otherOrders))]
+	kt := "bytes"
+	switch x := r.Intn(100); {
+	case x < 15:
+		kt = "int"
+	case x < 30:
+		kt = "string"
+	}
+	mag := []int{1, 1, 3, 1000, 0}[r.Intn(5)]
+	res.Stat("order:" + ord.name)
+	res.Stat("order:keytype:" + kt)
+	res.Stat(fmt.Sprintf("order:magnitude=%d", mag))
+	var keys [][]byte
+	cnt := r.Intn(24)
+	universe := 1 + r.Intn(200)
+	for j := 0; j < cnt; j++ {
+		if kt == "int" {
+			keys = append(keys, intKey(int64(r.Intn(universe))-int64(universe/2)))
+			continue
+		}
+		k := make([]byte, r.Intn(4))
+		for x := range k {
+			k[x] = orderAlphabet[r.Intn(len(orderAlphabet))]
+		}
+		keys = append(keys, k)
+	}
+	impl := newSkipImplOrd(kt, mag, ord)
+	if err := runSkipStatic(res, drv, idx, r, kt, keys, impl, ord, fmt.Sprintf("%s order=%s magnitude=%d", kt, ord.name, mag), "skip:order:"); err != nil {
+		return err
+	}
+	return runSkipProgramOrd(res, drv, seed^0x0b5e9a11c0de^0x6f7264657273, idx, kt, tier, ord)
 }
 
 // ---------------------------------------------------------------------------------------------
@@ -368,12 +585,24 @@ type skipOp struct {
 }
 
 func runSkipProgram(res *Result, drv *Driver, seed uint64, idx int, cmp string, tier string) error {
-	r := NewRng(seed^0x0b5e9a11c0de, uint64(idx))
+	return runSkipProgramOrd(res, drv, seed^0x0b5e9a11c0de, idx, cmp, tier, bytesOrder)
+}
+
+// the op program on a map ordered by ord (bytesOrder: the programs of runSkipProgram); salted = seed ^ salt of the caller
+func runSkipProgramOrd(res *Result, drv *Driver, salted uint64, idx int, cmp string, tier string, ord *byteOrder) error {
+	r := NewRng(salted, uint64(idx))
 	scale := 1
-	if cmp == "bytes" {
+	sp := "skip:"
+	alphabet := []byte{0, 1, 'a', 'b', 0xff}
+	if ord != bytesOrder {
+		// any key type, magnitudes incl. key-dependent ones (0), keys in both cases and on both sides of the int8 sign
+		scale = []int{1, 1, 2, 255, 1 << 20, 0}[r.Intn(6)]
+		sp = "skip:order:"
+		alphabet = orderAlphabet
+	} else if cmp == "bytes" {
 		scale = []int{1, 1, 2, 255, 1 << 20}[r.Intn(5)]
 	}
-	impl := newSkipImpl(cmp, scale)
+	impl := newSkipImplOrd(cmp, scale, ord)
 	// key universe
 	usz := 2 + r.Intn(10)
 	seen := map[string]bool{}
@@ -385,7 +614,7 @@ func runSkipProgram(res *Result, drv *Driver, seed uint64, idx int, cmp string, 
 		} else {
 			k = make([]byte, r.Intn(4))
 			for x := range k {
-				k[x] = []byte{0, 1, 'a', 'b', 0xff}[r.Intn(5)]
+				k[x] = alphabet[r.Intn(len(alphabet))]
 			}
 		}
 		if !seen[string(k)] {
@@ -393,7 +622,7 @@ func runSkipProgram(res *Result, drv *Driver, seed uint64, idx int, cmp string, 
 			uni = append(uni, k)
 		}
 	}
-	sort.Slice(uni, func(a, b int) bool { return bytes.Compare(uni[a], uni[b]) < 0 })
+	sort.Slice(uni, func(a, b int) bool { return bytes.Compare(uni[a], uni[b]) < 0 }) // (the description's order only)
 	// generate the program (simulating which keys are present, to aim lookups at hits and misses)
 	nops := r.Intn(40)
 	if tier == "thorough" && r.Chance(20) {
@@ -454,23 +683,15 @@ func runSkipProgram(res *Result, drv *Driver, seed uint64, idx int, cmp string, 
 		}
 	}
 	cs := fmt.Sprintf("%s scale=%d program=%s", cmp, scale, strings.Join(opTok, ","))
+	if ord != bytesOrder {
+		cs = fmt.Sprintf("%s order=%s scale=%d program=%s", cmp, ord.name, scale, strings.Join(opTok, ","))
+		res.Stat("order:programs:" + ord.name)
+	}
 	res.Stat("prog:programs")
 	res.StatN("prog:ops", len(ops))
 
-	ref := map[string]string{}
-	var sk [][]byte // present keys, sorted
-	refList := func(pred func(k []byte) bool) string {
-		var parts []string
-		for _, k := range sk {
-			if pred(k) {
-				parts = append(parts, gb(nonNil(k))+"="+ref[string(k)])
-			}
-		}
-		if len(parts) == 0 {
-			return "[]"
-		}
-		return strings.Join(parts, ";")
-	}
+	ref := &skipRef{ord: ord}
+	refList := ref.list
 	var insTok, insOut []string
 	var probes, implOut []string
 	at := 0 // index of the op being executed
@@ -486,7 +707,7 @@ func runSkipProgram(res *Result, drv *Driver, seed uint64, idx int, cmp string, 
 		if len(probes) == 0 {
 			return nil
 		}
-		m, err := drv.Ask(fmt.Sprintf("skip.run ins=%s probes=%s", strings.Join(insTok, ","), strings.Join(probes, ",")))
+		m, err := drv.Ask(fmt.Sprintf("skip.run %sins=%s probes=%s", ord.drvOpt(), strings.Join(insTok, ","), strings.Join(probes, ",")))
 		if err != nil {
 			return err
 		}
@@ -497,7 +718,7 @@ func runSkipProgram(res *Result, drv *Driver, seed uint64, idx int, cmp string, 
 	}
 	doLookup := func(sigp string, kind string, k []byte) {
 		ks := gb(nonNil(k))
-		rv, in := ref[string(k)]
+		rv, in := ref.get(k)
 		if kind == "get" {
 			v, ok := impl.get(k)
 			got, want := "notfound", "notfound"
@@ -535,10 +756,13 @@ func runSkipProgram(res *Result, drv *Driver, seed uint64, idx int, cmp string, 
 			v := "w" + strconv.Itoa(len(insTok))
 			insTok = append(insTok, fmt.Sprintf("%s:%s:%d", gb(nonNil(o.key)), v, 1+r.Intn(12)))
 			p := impl.insert(o.key, v)
-			_, dup := ref[string(o.key)]
+			_, dup := ref.get(o.key)
+			if i := ref.find(o.key); i >= 0 && !bytes.Equal(ref.keys[i], o.key) {
+				res.Stat("order:insert-of-equal-key-in-other-spelling")
+			}
 			res.Evaluations++
 			if p != dup {
-				res.Violate(idx, "C16", "skip:ops:dup-handling", fmt.Sprintf("op #%d insert of key %x: panicked=%v but duplicate=%v", i, o.key, p, dup), cs)
+				res.Violate(idx, "C16", sp+"ops:dup-handling", fmt.Sprintf("op #%d insert of key %x: panicked=%v but duplicate=%v", i, o.key, p, dup), cs)
 			}
 			if p {
 				insOut = append(insOut, "panic")
@@ -547,9 +771,7 @@ func runSkipProgram(res *Result, drv *Driver, seed uint64, idx int, cmp string, 
 				insOut = append(insOut, "ok")
 			}
 			if !dup {
-				ref[string(o.key)] = v
-				sk = append(sk, o.key)
-				sort.Slice(sk, func(a, b int) bool { return bytes.Compare(sk[a], sk[b]) < 0 })
+				ref.put(o.key, v)
 			}
 			if missKey != nil {
 				if bytes.Equal(missKey, o.key) {
@@ -565,28 +787,28 @@ func runSkipProgram(res *Result, drv *Driver, seed uint64, idx int, cmp string, 
 			}
 		case "get", "has":
 			lookups++
-			if _, in := ref[string(o.key)]; in {
+			if _, in := ref.get(o.key); in {
 				res.Stat("prog:lookup-hit")
 				missKey = nil
 			} else {
 				res.Stat("prog:lookup-miss")
 				missKey, othersSince = o.key, 0
 			}
-			doLookup("skip:ops:", o.kind, o.key)
+			doLookup(sp+"ops:", o.kind, o.key)
 		case "check":
 			res.Stat("prog:full-comparisons")
-			add("skip:ops:size", "size", strconv.Itoa(impl.size()), strconv.Itoa(len(ref)), "")
+			add(sp+"ops:size", "size", strconv.Itoa(impl.size()), strconv.Itoa(ref.size()), "")
 			all, err := impl.iter("all", nil, nil)
 			if err != nil {
 				return err
 			}
-			add("skip:ops:all", "all", all, refList(func([]byte) bool { return true }), "")
+			add(sp+"ops:all", "all", all, refList(func([]byte) bool { return true }), "")
 			// the full comparison's lookups do not count as lookups of the program (they would hide a remembered miss):
 			// they run on every SECOND comparison only, the others compare by iteration alone
 			if r.Chance(50) {
 				for _, k := range uni {
-					doLookup("skip:ops:check-", "get", k)
-					doLookup("skip:ops:check-", "has", k)
+					doLookup(sp+"ops:check-", "get", k)
+					doLookup(sp+"ops:check-", "has", k)
 				}
 				missKey = nil
 			}
@@ -597,17 +819,17 @@ func runSkipProgram(res *Result, drv *Driver, seed uint64, idx int, cmp string, 
 					return err
 				}
 				kk := k
-				add("skip:ops:from", "from:"+gb(nonNil(k)), fr, refList(func(x []byte) bool { return bytes.Compare(x, kk) >= 0 }), "")
+				add(sp+"ops:from", "from:"+gb(nonNil(k)), fr, refList(func(x []byte) bool { return ord.cmp(x, kk) >= 0 }), "")
 				lo, hi := bound(), bound()
 				bt, err := impl.iter("between", lo, hi)
 				if err != nil {
 					return err
 				}
 				want := "rejected"
-				if bytes.Compare(lo, hi) <= 0 {
-					want = refList(func(x []byte) bool { return bytes.Compare(x, lo) >= 0 && bytes.Compare(x, hi) <= 0 })
+				if ord.cmp(lo, hi) <= 0 {
+					want = refList(func(x []byte) bool { return ord.cmp(x, lo) >= 0 && ord.cmp(x, hi) <= 0 })
 				}
-				add("skip:ops:between", "between:"+gb(nonNil(lo))+":"+gb(nonNil(hi)), bt, want, "")
+				add(sp+"ops:between", "between:"+gb(nonNil(lo))+":"+gb(nonNil(hi)), bt, want, "")
 			}
 			if r.Chance(40) || i == len(ops)-1 {
 				// iterator program on the current map
@@ -630,16 +852,16 @@ func runSkipProgram(res *Result, drv *Driver, seed uint64, idx int, cmp string, 
 						sl.probe, sl.want = "all", refList(func([]byte) bool { return true })
 					case "from":
 						a = bound()
-						sl.probe, sl.want = "from:"+gb(nonNil(a)), refList(func(x []byte) bool { return bytes.Compare(x, a) >= 0 })
+						sl.probe, sl.want = "from:"+gb(nonNil(a)), refList(func(x []byte) bool { return ord.cmp(x, a) >= 0 })
 					default:
 						a, b = bound(), bound()
-						if bytes.Compare(a, b) > 0 && r.Chance(80) {
+						if ord.cmp(a, b) > 0 && r.Chance(80) {
 							a, b = b, a
 						}
 						sl.probe = "between:" + gb(nonNil(a)) + ":" + gb(nonNil(b))
 						sl.want = "rejected"
-						if bytes.Compare(a, b) <= 0 {
-							sl.want = refList(func(x []byte) bool { return bytes.Compare(x, a) >= 0 && bytes.Compare(x, b) <= 0 })
+						if ord.cmp(a, b) <= 0 {
+							sl.want = refList(func(x []byte) bool { return ord.cmp(x, a) >= 0 && ord.cmp(x, b) <= 0 })
 						}
 					}
 					res.Stat("iters:opened:" + kind)
@@ -653,7 +875,7 @@ func runSkipProgram(res *Result, drv *Driver, seed uint64, idx int, cmp string, 
 					}
 					slots = append(slots, sl)
 				}
-				limit := len(sk) + 6
+				limit := ref.size() + 6
 				var iterErr error
 				step := func(j int) {
 					sl := slots[j]
@@ -676,7 +898,7 @@ func runSkipProgram(res *Result, drv *Driver, seed uint64, idx int, cmp string, 
 					case sl.done:
 						// Done is final: an element after it is reported, and kept in the answer so that the model differs too
 						res.Evaluations++
-						res.Violate(idx, "C16", "skip:iters:next-after-done", fmt.Sprintf("op #%d iterator #%d (%s) had reported Done, a later Next returned %s", at, j, sl.probe, e),
+						res.Violate(idx, "C16", sp+"iters:next-after-done", fmt.Sprintf("op #%d iterator #%d (%s) had reported Done, a later Next returned %s", at, j, sl.probe, e),
 							cs+" iterators@op#"+strconv.Itoa(at)+"="+strings.Join(sched, ","))
 						sl.got = append(sl.got, "AFTER-DONE:"+e)
 					default:
@@ -748,7 +970,7 @@ func runSkipProgram(res *Result, drv *Driver, seed uint64, idx int, cmp string, 
 					if !sl.done {
 						got += ";NO-DONE"
 					}
-					add("skip:iters:"+strings.SplitN(sl.probe, ":", 2)[0], sl.probe, got, sl.want, extra)
+					add(sp+"iters:"+strings.SplitN(sl.probe, ":", 2)[0], sl.probe, got, sl.want, extra)
 				}
 			}
 		}
@@ -757,7 +979,7 @@ func runSkipProgram(res *Result, drv *Driver, seed uint64, idx int, cmp string, 
 	if err := flush(); err != nil {
 		return err
 	}
-	if len(ref) >= 2 && lookups > 0 {
+	if ref.size() >= 2 && lookups > 0 {
 		res.NoteNontrivial(cs)
 	}
 	return nil
@@ -818,18 +1040,73 @@ func runPq(res *Result, drv *Driver, seed uint64, n int, tier string, only int) 
 	res.Rule = "0..8 ascending inputs of differing lengths over a small key alphabet (duplicates across inputs, empty inputs, empty key); " +
 		"each input signals exhaustion with the bare pq.Done or with an error wrapping it (inputs empty from the start and inputs that run dry later); " +
 		"15% of the cases have one input whose k-th call returns a real error (wrapping another sentinel) instead of its element or of Done; " +
-		"non-trivial = at least 2 non-empty inputs; distinct = distinct input lists"
+		"non-trivial = at least 2 non-empty inputs; distinct = distinct input lists. " +
+		"Every case index runs a second case (generator states of its own) whose comparator defines ANOTHER ORDER than bytes.Compare (descending, shortlex, " +
+		"longer-first, last byte first, bytes as int8, case-insensitive with/without tie-break; magnitudes 1, k, key-dependent): inputs of 0-3 byte keys " +
+		"ascending in that order, reference and model under the same order"
 	for idx := 0; idx < n; idx++ {
 		if only >= 0 && idx != only {
 			continue
 		}
-		r := NewRng(seed, uint64(idx))
+		for variant := 0; variant < 2; variant++ {
+			if err := runPqCase(res, drv, seed, idx, tier, variant); err != nil {
+				return err
+			}
+		}
+	}
+	return nil
+}
+
+// one case of "pq". variant 0: the comparator orders like bytes.Compare; variant 1: another order (otherOrders), every
+// random choice from generator states of its own
+func runPqCase(res *Result, drv *Driver, seed uint64, idx int, tier string, variant int) error {
+	{
+		ord := bytesOrder
+		salt := uint64(0)
+		if variant == 1 {
+			salt = 0x6f72646572
+		}
+		r := NewRng(seed^salt, uint64(idx))
+		if variant == 1 {
+			ord = otherOrders[r.Intn(len(otherOrders))]
+			res.Stat("order:" + ord.name)
+		}
 		res.Cases++
 		k := r.Intn(9)
 		universe := 1 + r.Intn(12)
 		var inputs [][][2][]byte
 		nonEmpty := 0
-		for i := 0; i < k; i++ {
+		for i := 0; i < k && variant == 1; i++ {
+			// keys of 0-3 bytes over both cases of two letters and both sides of the int8 sign, ascending in the order
+			// (keys the order holds equal appear once per input)
+			ln := r.Intn(8)
+			if r.Chance(15) {
+				ln = 0
+			}
+			if tier == "thorough" && r.Chance(5) {
+				ln = 50 + r.Intn(200)
+			}
+			set := &skipRef{ord: ord}
+			for j := 0; j < ln; j++ {
+				key := make([]byte, r.Intn(4))
+				if universe < 4 && len(key) > 1 {
+					key = key[:1] // small universes: many duplicates across the inputs
+				}
+				for x := range key {
+					key[x] = orderAlphabet[r.Intn(len(orderAlphabet))]
+				}
+				set.put(key, "")
+			}
+			var in [][2][]byte
+			for j, key := range set.keys {
+				in = append(in, [2][]byte{key, []byte(fmt.Sprintf("v%d.%d", i, j))})
+			}
+			if len(in) > 0 {
+				nonEmpty++
+			}
+			inputs = append(inputs, in)
+		}
+		for i := 0; i < k && variant == 0; i++ {
 			ln := r.Intn(8)
 			if r.Chance(15) {
 				ln = 0
@@ -866,7 +1143,7 @@ func runPq(res *Result, drv *Driver, seed uint64, n int, tier string, only int) 
 		res.Stat(fmt.Sprintf("inputs=%d", k))
 		// exhaustion style per input and an optional failing input: drawn from a second generator state so that the
 		// generated element lists are those of the plain cases
-		r2 := NewRng(seed^0x5eed0d09e, uint64(idx))
+		r2 := NewRng(seed^salt^0x5eed0d09e, uint64(idx))
 		styles := make([]int, k)
 		anyWrapped := false
 		wrapAll := r2.Chance(15)
@@ -920,6 +1197,11 @@ func runPq(res *Result, drv *Driver, seed uint64, n int, tier string, only int) 
 			styleTok = append(styleTok, pqDoneNames[styles[i]])
 		}
 		cs := "inputs=" + strings.Join(tok, "|")
+		sigPrefix := "pq:"
+		if variant == 1 {
+			cs = "order=" + ord.name + " " + cs
+			sigPrefix = "pq:order:"
+		}
 		if nonEmpty >= 2 {
 			res.NoteNontrivial(cs)
 		}
@@ -934,7 +1216,12 @@ func runPq(res *Result, drv *Driver, seed uint64, n int, tier string, only int) 
 			sigSuffix = ":wrapped-done"
 		}
 		var cmp skiplist.Comparator[[]byte] = skiplist.BytesComparator{}
-		if sc := []int{1, 1, 2, 7, 1000}[r.Intn(5)]; sc != 1 {
+		if variant == 1 {
+			mag := []int{1, 1, 2, 7, 1000, 0}[r.Intn(6)]
+			cmp = ordCmp[[]byte]{ord, mag, func(b []byte) []byte { return b }}
+			res.Stat(fmt.Sprintf("order:magnitude=%d", mag))
+			csFull += fmt.Sprintf(" magnitude=%d", mag)
+		} else if sc := []int{1, 1, 2, 7, 1000}[r.Intn(5)]; sc != 1 {
 			cmp = scaledBytesCmp{sc}
 			res.Stat("cmp:magnitudes-other-than-1")
 		}
@@ -972,7 +1259,7 @@ func runPq(res *Result, drv *Driver, seed uint64, n int, tier string, only int) 
 		res.Evaluations++
 		okSorted := true
 		for j := 1; j < len(out); j++ {
-			if out[j-1].k > out[j].k {
+			if ord.cmp([]byte(out[j-1].k), []byte(out[j].k)) > 0 {
 				okSorted = false
 			}
 		}
@@ -989,14 +1276,14 @@ func runPq(res *Result, drv *Driver, seed uint64, n int, tier string, only int) 
 			// input's error and not pq.Done; what was emitted before is sorted and a prefix of every input
 			switch {
 			case runErr == nil && terminated:
-				res.Violate(idx, "C16", "pq:read-error-absorbed"+sigSuffix, "an input returned a real error, the queue reported Done after: "+impl, csFull)
+				res.Violate(idx, "C16", sigPrefix+"read-error-absorbed"+sigSuffix, "an input returned a real error, the queue reported Done after: "+impl, csFull)
 			case runErr == nil:
-				res.Violate(idx, "C16", "pq:read-error-absorbed"+sigSuffix, "an input returned a real error, the queue keeps emitting elements: "+impl, csFull)
+				res.Violate(idx, "C16", sigPrefix+"read-error-absorbed"+sigSuffix, "an input returned a real error, the queue keeps emitting elements: "+impl, csFull)
 			case !errors.Is(runErr, errPqRead) || errors.Is(runErr, pq.Done):
-				res.Violate(idx, "C16", "pq:read-error-replaced"+sigSuffix, "the queue reported "+runErr.Error()+" which is not the input's error", csFull)
+				res.Violate(idx, "C16", sigPrefix+"read-error-replaced"+sigSuffix, "the queue reported "+runErr.Error()+" which is not the input's error", csFull)
 			}
 			if !sis[failIn].hit {
-				res.Violate(idx, "C16", "pq:read-error-not-reached"+sigSuffix, "the queue finished without calling the failing input's Next often enough: "+impl, csFull)
+				res.Violate(idx, "C16", sigPrefix+"read-error-not-reached"+sigSuffix, "the queue finished without calling the failing input's Next often enough: "+impl, csFull)
 			}
 			okPrefix := true
 			for i, in := range inputs {
@@ -1015,14 +1302,14 @@ func runPq(res *Result, drv *Driver, seed uint64, n int, tier string, only int) 
 				}
 			}
 			if !okSorted {
-				res.Violate(idx, "C16", "pq:order:before-read-error"+sigSuffix, "output not in non-descending key order: "+impl, csFull)
+				res.Violate(idx, "C16", sigPrefix+"order:before-read-error"+sigSuffix, "output not in non-descending key order: "+impl, csFull)
 			}
 			if !okPrefix {
-				res.Violate(idx, "C16", "pq:elements:before-read-error"+sigSuffix, "output is not made of prefixes of the inputs: "+impl, csFull)
+				res.Violate(idx, "C16", sigPrefix+"elements:before-read-error"+sigSuffix, "output is not made of prefixes of the inputs: "+impl, csFull)
 			}
 			// model: the run is the run over the inputs with the failing one cut at the failing call, up to (excluding) the
 			// element whose removal asks the failing input for its next element, i.e. its last element before the error
-			line := "pq.run inputs=" + strings.Join(tokCut, "|")
+			line := "pq.run " + ord.drvOpt() + "inputs=" + strings.Join(tokCut, "|")
 			m, err := drv.Ask(line)
 			if err != nil {
 				return err
@@ -1053,10 +1340,10 @@ func runPq(res *Result, drv *Driver, seed uint64, n int, tier string, only int) 
 				}
 			}
 			res.Cmp(idx, "pq.run (elements emitted before the read error)", want, impl, csFull)
-			continue
+			return nil
 		}
 		if runErr != nil {
-			res.Violate(idx, "C16", "pq:error-without-fault"+sigSuffix, "the queue reported "+runErr.Error()+" although no input failed", csFull)
+			res.Violate(idx, "C16", sigPrefix+"error-without-fault"+sigSuffix, "the queue reported "+runErr.Error()+" although no input failed", csFull)
 		}
 		// oracle: non-descending, every element exactly once with its input's identity, per-input order kept
 		okPerm := terminated
@@ -1072,18 +1359,18 @@ func runPq(res *Result, drv *Driver, seed uint64, n int, tier string, only int) 
 			}
 		}
 		if !okSorted {
-			res.Violate(idx, "C16", "pq:order"+sigSuffix, "output not in non-descending key order: "+impl, csFull)
+			res.Violate(idx, "C16", sigPrefix+"order"+sigSuffix, "output not in non-descending key order: "+impl, csFull)
 		}
 		if !okPerm {
 			d := "output is not every element of every input exactly once: " + impl
 			if !terminated && runErr == nil {
 				d = fmt.Sprintf("no Done after %d calls for %d elements; ", total+8, total) + d
 			}
-			res.Violate(idx, "C16", "pq:elements"+sigSuffix, d, csFull)
+			res.Violate(idx, "C16", sigPrefix+"elements"+sigSuffix, d, csFull)
 		}
-		line := "pq.run inputs=" + strings.Join(tok, "|")
+		line := "pq.run " + ord.drvOpt() + "inputs=" + strings.Join(tok, "|")
 		if k == 0 {
-			line = "pq.run k=0 inputs="
+			line = "pq.run " + ord.drvOpt() + "k=0 inputs="
 		}
 		m, err := drv.Ask(line)
 		if err != nil {
